@@ -88,6 +88,10 @@ func tokenizeStream(src io.Reader, normalize bool, dict *dictionary, updateDict 
 	// heldBreaks is the number of line breaks that were struck out of the
 	// hyphenated word being assembled and are not counted in line yet.
 	heldBreaks := 0
+	// lineOffset is the number of words of the current line that are not in
+	// linebuf because they were added to the document with an earlier line (the
+	// remainder of a hyphenated word).
+	lineOffset := 0
 	// the tokenizer uses a local dictionary to conserve memory while
 	// analyzing the input doc to avoid polluting the global dictionary
 	ld := newDictionary()
@@ -136,10 +140,11 @@ func tokenizeStream(src io.Reader, normalize bool, dict *dictionary, updateDict 
 
 				// If there is something in the line to process, do so now
 				if len(linebuf) > 0 {
-					appendToDoc(&doc, dict, line, linebuf, ld, normalize, updateDict, linebuf)
+					appendToDoc(&doc, dict, line, linebuf, ld, normalize, updateDict, lineOffset)
 					linebuf = nil
 					obuf = nil
 				}
+				lineOffset = 0
 				if heldBreaks > 0 {
 					// The hyphenated word ended with this line (it was not continued,
 					// or its remainder is the last word of the line). It has been
@@ -194,8 +199,11 @@ func tokenizeStream(src io.Reader, normalize bool, dict *dictionary, updateDict 
 				linebuf = append(linebuf, flushBuf(len(linebuf), obuf, normalize, ld))
 				if heldBreaks > 0 {
 					// This word was hyphenated over a line break.
-					appendToDoc(&doc, dict, line, linebuf, ld, normalize, updateDict, linebuf)
+					appendToDoc(&doc, dict, line, linebuf, ld, normalize, updateDict, lineOffset)
 					linebuf = nil
+					// The remainder of the word was the first word of this line: the
+					// words that follow are not at the start of a line.
+					lineOffset = 1
 					// Increment the line count now so the remainder token is credited
 					// to the previous line number.
 					line += heldBreaks
@@ -237,7 +245,7 @@ func tokenizeStream(src io.Reader, normalize bool, dict *dictionary, updateDict 
 		linebuf = append(linebuf, flushBuf(len(linebuf), obuf, normalize, ld))
 	}
 	if len(linebuf) > 0 {
-		appendToDoc(&doc, dict, line, linebuf, ld, normalize, updateDict, linebuf)
+		appendToDoc(&doc, dict, line, linebuf, ld, normalize, updateDict, lineOffset)
 	}
 
 	doc.dict = dict
@@ -263,8 +271,10 @@ func fill(src io.Reader, buf []byte) (n int, err error) {
 	return n, err
 }
 
-func appendToDoc(doc *indexedDocument, dict *dictionary, line int, in []tokenID, ld *dictionary, normalize bool, updateDict bool, linebuf []tokenID) {
-	tokens, m := stringifyLineBuf(dict, line, linebuf, ld, normalize, updateDict)
+// appendToDoc adds the words in, which stand on the given line from position
+// first on, to the document.
+func appendToDoc(doc *indexedDocument, dict *dictionary, line int, in []tokenID, ld *dictionary, normalize bool, updateDict bool, first int) {
+	tokens, m := stringifyLineBuf(dict, line, in, ld, normalize, updateDict, first)
 	if tokens != nil {
 		doc.Tokens = append(doc.Tokens, tokens...)
 	} else if m != nil {
@@ -272,7 +282,7 @@ func appendToDoc(doc *indexedDocument, dict *dictionary, line int, in []tokenID,
 	}
 }
 
-func stringifyLineBuf(dict *dictionary, line int, in []tokenID, ld *dictionary, normalize bool, updateDict bool) ([]indexedToken, *Match) {
+func stringifyLineBuf(dict *dictionary, line int, in []tokenID, ld *dictionary, normalize bool, updateDict bool, first int) ([]indexedToken, *Match) {
 	if len(in) == 0 {
 		return nil, nil
 	}
@@ -298,7 +308,7 @@ func stringifyLineBuf(dict *dictionary, line int, in []tokenID, ld *dictionary, 
 
 	var tokens []indexedToken
 	for i, r := range in {
-		txt := cleanupToken(i, ld.getWord(r), normalize)
+		txt := cleanupToken(first+i, ld.getWord(r), normalize)
 		if txt != "" {
 			var tokID tokenID
 			if updateDict {
